@@ -154,20 +154,28 @@ class reusable_storage_mtsafe: public reusable_storage {
 public:
     void *alloc(std::size_t sz)  {
         void *p;
-        if (_busy.exchange(true, std::memory_order_relaxed)) {
+        reusable_storage_mtsafe *owner;
+        //acquire - we need to see everything the previous user of the block did with it
+        //(including changes of _ptr and _capacity)
+        if (_busy.exchange(true, std::memory_order_acquire)) {
             p = ::operator new(sz+sizeof(reusable_storage_mtsafe **));
+            //the frame doesn't occupy the block - this is marked by nullptr, dealloc() must
+            //not touch the storage, because other thread can just work with it
+            owner = nullptr;
         } else {
             p = reusable_storage::alloc(sz+sizeof(reusable_storage_mtsafe **));
+            owner = this;
         }
         auto s = reinterpret_cast<reusable_storage_mtsafe **>(reinterpret_cast<char *>(p) + sz);
-        *s = this;
+        *s = owner;
         return p;
     }
     static void dealloc(void *ptr, std::size_t sz) {
         auto s = reinterpret_cast<reusable_storage_mtsafe **>(reinterpret_cast<char *>(ptr) + sz);
         auto me = *s;
-        if (ptr == me->_ptr) {
-            me->_busy.store(false, std::memory_order_relaxed);
+        if (me) {
+            //release - the next user of the block must see all our accesses finished
+            me->_busy.store(false, std::memory_order_release);
         } else {
             ::operator delete(ptr);
         }
